@@ -96,6 +96,7 @@ class Stats:
 
 
 LIGHT_GROUPS = ("def", "cons")
+BRANCH_ABSTRACTIONS = []      # functions(ctx, extra, groups) -> 'sat' | 'unsat' | None
 QUERY_HOOKS = []      # functions(list of formulas) -> list of extra formulas
 DUMP_DIR = os.environ.get("EVOVERIF_DUMP")
 _dump_n = [0]
@@ -152,6 +153,13 @@ class Ctx:
         """check assumptions + path + axioms(sliced) + extra.
         returns ('sat'|'unsat'|'unknown', model|None)"""
         extra = list(extra)
+        if kind == "branch" and BRANCH_ABSTRACTIONS:
+            # feasibility abstraction (sound over-approximation): e.g. acos* applications as free values in
+            # [0, pi]; "sat" there is accepted as feasible, "unsat" there is unsat
+            for ab in BRANCH_ABSTRACTIONS:
+                r0 = ab(self, extra, groups)
+                if r0 is not None:
+                    return r0, None
         t0 = time.time()
         tmo = int(timeout_ms or self.timeout_ms)
         ax = [(o, f) for o, f, g in self.axioms if groups is None or g in groups]
